@@ -47,6 +47,36 @@ Proof.
   destruct n as [|c t]; [discriminate|]. simpl. rewrite (strip_fix_hd c t); [reflexivity|symmetry; exact H2].
 Qed.
 
+(* ---- the reader's line separators (regenerated from unpreserve.Reader.readFile) ---- *)
+(* the characters at which the real reader ends a line are exactly those at which the model's reader (C16 split_nl)
+   does, and every one of them is refused inside a user name by User._checkName *)
+Definition lineseps_ok (t forb : list N) : bool :=
+  forallb C16.Model.is_nl t && mem C16.Model.LF t && mem C16.Model.CR t && forallb (fun c => mem c forb) t.
+Lemma lineseps_ok_current : lineseps_ok gen.T02.READER_LINESEPS gen.T02.NAME_FORBIDDEN = true.
+Proof. vm_compute. reflexivity. Qed.
+
+Lemma lineseps_model t forb c : lineseps_ok t forb = true -> mem c t = C16.Model.is_nl c.
+Proof.
+  unfold lineseps_ok. intro H.
+  repeat match type of H with (_ && _ = true) => apply andb_true_iff in H as [H ?] end.
+  destruct (mem c t) eqn:E.
+  - symmetry. apply mem_In in E. rewrite forallb_forall in H. apply H. exact E.
+  - symmetry. unfold C16.Model.is_nl. destruct (N.eqb c C16.Model.LF) eqn:E1.
+    + apply N.eqb_eq in E1. subst c. congruence.
+    + destruct (N.eqb c C16.Model.CR) eqn:E2; [|reflexivity]. apply N.eqb_eq in E2. subst c. congruence.
+Qed.
+
+Lemma lineseps_refused t c n :
+  lineseps_ok t gen.T02.NAME_FORBIDDEN = true -> mem c t = true -> name_valid n = true -> mem c n = false.
+Proof.
+  unfold lineseps_ok, name_valid. intros H Hc Hn.
+  repeat match type of H with (_ && _ = true) => apply andb_true_iff in H as [H ?] end.
+  apply andb_true_iff in Hn as [_ Hn]. apply negb_true_iff in Hn.
+  apply (existsb_false_mem _ _ _ Hn).
+  match goal with K : forallb (fun c => mem c _) t = true |- _ => rewrite forallb_forall in K; apply K end.
+  apply mem_In. exact Hc.
+Qed.
+
 Lemma nonws_app a b : nonws (a ++ b) = nonws a && nonws b.
 Proof. unfold nonws. apply forallb_app. Qed.
 
